@@ -38,10 +38,10 @@ template<typename L> struct Counting {
 	void unlock() { t_pool_locks_held--; l.unlock(); }
 };
 
-template<bool ALIGNED>
+template<bool ALIGNED, bool BIG = false>
 struct MtPolicyT {
-	static constexpr size_t pagesize = 0x1000, slabsize = 0x4000, sb_size = 0x4000;
-	static constexpr int num_buckets = 6; // 8..256
+	static constexpr size_t pagesize = 0x1000, slabsize = BIG ? 0x10000 : 0x4000, sb_size = BIG ? 0x10000 : 0x4000;
+	static constexpr int num_buckets = BIG ? 11 : 6; // 8..256, or 8..8192 (size classes of a page and more)
 	std::mutex reg_mutex; // registry touched only on map/unmap (slab creation, large blocks)
 	std::map<uintptr_t, std::pair<void *, size_t>> maps;
 	std::atomic<uint64_t> n_map{0}, n_unmap{0}, bad_unmap{0};
@@ -69,10 +69,10 @@ struct AllocEv { uintptr_t addr; size_t size; uint64_t alloc_ret, free_call; };
 
 static uint8_t pat_byte(uint64_t pat, size_t i) { return (uint8_t)((pat >> ((i % 8) * 8)) + i * 11); }
 
-template<typename M, bool ALIGNED = true>
+template<typename M, bool ALIGNED = true, bool BIG = false>
 static void torture(const char *mname, long long idx, int nthreads, unsigned nops) {
-	using MtPolicy = MtPolicyT<ALIGNED>;
-	std::string mode = std::string("tsan:") + mname + (ALIGNED ? "" : ":unaligned-map");
+	using MtPolicy = MtPolicyT<ALIGNED, BIG>;
+	std::string mode = std::string("tsan:") + mname + (ALIGNED ? "" : ":unaligned-map") + (BIG ? ":page-sized-classes" : "");
 	begin_case(mode.c_str(), idx);
 	MtPolicy pol;
 	auto *pool = new frg::slab_pool<MtPolicy, Counting<M>>(pol);
@@ -82,9 +82,11 @@ static void torture(const char *mname, long long idx, int nthreads, unsigned nop
 	std::vector<std::vector<AllocEv>> logs(nthreads);
 	std::atomic<uint64_t> corrupt{0}, nulls{0}, cross{0}, reallocs{0};
 	const bool large_heavy = (idx % 3 == 2); // every third run: mostly large blocks, so that the page accounting and the region bookkeeping run concurrently
-	// pages one slab accounts for, measured on a scratch pool of the same type (single-threaded)
-	size_t per_slab_pages = 0;
-	{ MtPolicy sp; auto *scratch = new frg::slab_pool<MtPolicy, Counting<M>>(sp); size_t before = scratch->numUsedPages(); void *q = scratch->allocate(8); per_slab_pages = scratch->numUsedPages() - before; scratch->free(q);
+	// pages a slab of each size class accounts for, measured on a scratch pool of the same type (single-threaded; the figure depends on
+	// the class because the frame overhead is rounded up to the object size)
+	std::map<size_t, size_t> pages_of_class;
+	{ MtPolicy sp; auto *scratch = new frg::slab_pool<MtPolicy, Counting<M>>(sp);
+	  for(int b = 0; b < MtPolicy::num_buckets; b++) { size_t cls = size_t(8) << b; size_t before = scratch->numUsedPages(); void *q = scratch->allocate(cls); pages_of_class[scratch->get_size(q)] = scratch->numUsedPages() - before; scratch->free(q); }
 	  for(auto &kv : sp.maps) munmap(kv.second.first, kv.second.second); delete scratch; }
 	std::vector<std::thread> th;
 	for(int t = 0; t < nthreads; t++) th.emplace_back([&, t] {
@@ -102,7 +104,7 @@ static void torture(const char *mname, long long idx, int nthreads, unsigned nop
 		for(unsigned i = 0; i < nops; i++) {
 			int z = r.below(100);
 			if(z < 45 || mine.empty()) {
-				size_t n = large_heavy ? r.pick(std::vector<size_t>{8, 64, 300, 5000, 5000, 9000, 20000, 300, 4097, 70000}) : r.pick(std::vector<size_t>{8, 8, 16, 64, 64, 64, 200, 256, 256, 300, 5000});
+				size_t n = BIG ? r.pick(std::vector<size_t>{64, 2048, 4096, 4096, 4000, 8192, 8192, 8000, 8193, 300}) : large_heavy ? r.pick(std::vector<size_t>{8, 64, 300, 5000, 5000, 9000, 20000, 300, 4097, 70000}) : r.pick(std::vector<size_t>{8, 8, 16, 64, 64, 64, 200, 256, 256, 300, 5000});
 				void *p = pool->allocate(n);
 				uint64_t ar = ts();
 				if(!p) { nulls++; continue; }
@@ -175,11 +177,17 @@ static void torture(const char *mname, long long idx, int nthreads, unsigned nop
 	if(g_policy_under_lock.load()) violation(key + ":policy-called-with-pool-lock", strf("Policy::map/unmap was entered %llu times while the calling thread held a pool mutex", (unsigned long long)g_policy_under_lock.load()));
 	if(pol.bad_unmap.load()) violation(key + ":unmap-unknown", "unmap of an unknown region");
 	// quiescent accounting: every block is freed, so only slabs remain mapped (large reservations are returned when freed) and the
-	// used-page counter must be what those slabs added - in any sequential order of the calls that were made
+	// used-page counter must be what those slabs added - in any sequential order of the calls that were made. The class of a slab is
+	// the reported size of any block that was handed out from it; a slab nobody ever got a block from leaves the check inconclusive.
 	{ size_t remaining; { std::lock_guard<std::mutex> g(pol.reg_mutex); remaining = pol.maps.size(); }
+	  std::map<uintptr_t, size_t> slab_class;
+	  for(auto &e : all) if(pages_of_class.count(e.size)) slab_class[e.addr & ~(uintptr_t)(MtPolicy::sb_size - 1)] = e.size;
 	  size_t used = pool->numUsedPages();
-	  if(used != remaining * per_slab_pages) violation(key + ":pages-drift", strf("after all threads finished and every block was freed, numUsedPages()=%zu but %zu slabs of %zu pages each remain mapped", used, remaining, per_slab_pages));
-	  count("tsan_quiescent_page_accounting_checks"); }
+	  if(slab_class.size() == remaining) {
+		size_t expect = 0; for(auto &kv : slab_class) expect += pages_of_class[kv.second];
+		if(used != expect) violation(key + ":pages-drift", strf("after all threads finished and every block was freed, numUsedPages()=%zu but the %zu slabs that remain mapped account for %zu pages", used, remaining, expect));
+		count("tsan_quiescent_page_accounting_checks");
+	  } else count("tsan_quiescent_page_accounting_inconclusive"); }
 	{ std::lock_guard<std::mutex> g(pol.reg_mutex); for(auto &kv : pol.maps) munmap(kv.second.first, kv.second.second); }
 	delete pool;
 	note_distinct(mix(hash_str(mode), idx * 16 + nthreads));
@@ -197,7 +205,8 @@ int main(int argc, char **argv) {
 		int nt = 2 + idx % 7;
 		g_jitter_den = (i % 2) ? 4 : 16;
 		unsigned nops = opt.thorough() ? 6000 : 1500;
-		switch(i % 4) {
+		switch(i % 5) {
+		case 4: torture<frg::simple_spinlock, true, true>("simple_spinlock", idx, nt, nops); break; // 64K slabs, classes up to 8192 bytes
 		case 0: torture<frg::ticket_spinlock>("ticket_spinlock", idx, nt, nops); break;
 		case 1: torture<frg::simple_spinlock>("simple_spinlock", idx, nt, nops); break;
 		case 2: torture<std::mutex>("std_mutex", idx, nt, nops); break;
